@@ -282,20 +282,30 @@ variable {α : Type}
 open Simplify
 
 theorem simplify_go_eq (s : Simplifier α) (gs : List (Geom α)) :
-    simplifyG.go s gs = resMapM (simplifyG s) gs := by
+    simplifyG.go s gs =
+      match resMapM (simplifyG s) gs with
+      | .ok l => .ok (l.filter fun g => !g.isNil)
+      | .err e => .err e
+      | .panic w => .panic w := by
   induction gs with
   | nil => rfl
   | cons g gs ih =>
     rw [simplifyG.go, ih, resMapM]
     cases simplifyG s g with
-    | ok c => cases resMapM (simplifyG s) gs <;> rfl
+    | ok c =>
+      cases resMapM (simplifyG s) gs with
+      | ok cs =>
+        cases hc : c.isNil <;> simp [List.filter_cons, hc]
+      | err e => rfl
+      | panic w => rfl
     | err e => rfl
     | panic w => rfl
 
 theorem simplify_collection' (s : Simplifier α) (gs : List (Geom α)) :
     simplifyG s (.collection gs) =
       match resMapM (simplifyG s) gs with
-      | .ok l => if l.length = 0 then .ok .nil else .ok (.coll l)
+      | .ok l =>
+        if (l.filter fun g => !g.isNil).length = 0 then .ok .nil else .ok (.coll (l.filter fun g => !g.isNil))
       | .err e => .err e
       | .panic w => .panic w := by
   rw [simplifyG, simplify_go_eq]
